@@ -448,6 +448,34 @@ def long_symlinks(cfg, rng, lo=None):
     return ops, {}
 
 
+def udf_fid_exact(cfg, rng):
+    """UDF directory whose File Identifier Descriptors end exactly on a 2048-byte boundary, with more entries after it:
+    parent FID 40 bytes, names of 2..5 bytes -> 44, names of 6..9 bytes -> 48: 40 + 2*44 + 40*48 = 2048"""
+    if not cfg.udf:
+        return None
+    ops, sizes = [], {}
+    d = rng.choice(['', '/ud'])
+    if d:
+        ops.append({'k': 'add_dir', 'udf': d})
+    k = 0
+    names = ['ab%02d' % i for i in range(2)] + ['name%04d' % i for i in range(40)] + ['z%d' % i for i in range(rng.randrange(1, 5))]
+    for nm in names:
+        k += 1
+        sizes[k] = k % 3
+        ops.append({'k': 'add_fp', 'blob': k, 'size': k % 3, 'udf': d + '/' + nm})
+    return ops, sizes
+
+
+def udf_symlinks(cfg, rng):
+    """UDF symlinks whose targets hold Latin-1, CJK and Cyrillic components, '.', '..', absolute paths"""
+    if not cfg.udf or cfg.rr:
+        return None
+    ops, sizes = [], {}
+    tg = ['foo', '/abs/path', '../up/x', 'a/b/c', '中文/файл', 'dir/\u65e5\u672c/x', 'é/ü', '/\u4e2d', 'x' * 100 + '/\u0444']
+    for i, t in enumerate(tg):
+        ops.append({'k': 'add_symlink_udf', 'iso': '/' + file_ident(cfg, i + 1, 8), 'udf': '/sym%d' % i, 'target': t})
+    return ops, sizes
+
 RECIPES = {
     'exact_fill': lambda cfg, rng: exact_fill(cfg, rng, 0, True),
     'exact_fill_root': lambda cfg, rng: exact_fill(cfg, rng, 0, False),
@@ -463,6 +491,8 @@ RECIPES = {
     'deep_tree': lambda cfg, rng: deep_tree(cfg, rng),
     'long_symlinks': lambda cfg, rng: long_symlinks(cfg, rng),
     'udf_fid_cross': lambda cfg, rng: udf_fid_cross(cfg, rng),
+    'udf_fid_exact': lambda cfg, rng: udf_fid_exact(cfg, rng),
+    'udf_symlinks': lambda cfg, rng: udf_symlinks(cfg, rng),
 }
 
 
